@@ -83,9 +83,8 @@ CLASSES = ["query", "convert", "proj", "closure", "arith", "compose", "tensor", 
 MIN_CLASS = {"quick": {"query": 300, "convert": 300, "proj": 300, "closure": 200, "arith": 150, "compose": 300,
                        "tensor": 60, "copy": 200, "cache": 300, "atol": 150, "estimate": 300, "estimate-seq": 60,
                        "dist": 100, "basis": 100},
-             "thorough": {"query": 9000, "convert": 9000, "proj": 9000, "closure": 6000, "arith": 4000, "compose": 9000,
-                          "tensor": 1500, "copy": 6000, "cache": 9000, "atol": 4000, "estimate": 9000,
-                          "estimate-seq": 1500, "dist": 3000, "basis": 3000}}
+             "thorough": {}}
+MIN_CLASS["thorough"] = {k: 20 * v for k, v in MIN_CLASS["quick"].items()}  # 24 x the steps of the quick tier
 REQUIRED_ORACLES = ["twin:" + c for c in CLASSES if c != "basis"] + [
     "purity:operands", "purity:pool", "purity:hook", "memo", "copy:independent", "basis:immutable"]
 MIN_EVALS = {"quick": 50000, "thorough": 500000}
@@ -112,7 +111,7 @@ HOOK_BUDGET = 200  # digest-based hook evaluations per step (estimation inner lo
 
 
 def shards(tier, seed):
-    n_hist, steps, n_shards = {"quick": (300, 40, 48), "thorough": (3000, 120, 96)}[tier]
+    n_hist, steps, n_shards = {"quick": (300, 40, 48), "thorough": (2400, 120, 96)}[tier]
     out = []
     fl = list(FLAVOURS)
     for s in range(n_shards):
